@@ -119,6 +119,9 @@ StopDiscipline == /\ cons = "done" => stopClosed
                   /\ stopped => (stopClosed \/ nerr > 0)
 \* generation terminates, and then no goroutine is left
 Termination == <>(AllDone \/ Crashed)
+\* (a worker's search for the next prime is ONE step here: it ends with a prime or by noticing `stopped`. In the code it is a loop that
+\*  looks at the channel every 1000 candidates; that the step really ends when the pool is stopped is measured by `kg stoplat` at
+\*  1024 and 1536 bits, where a prime takes minutes and a stopped search must be over in seconds)
 NoLeak == [](cons = "done" => <>(Crashed \/ (mon = "done" /\ \A w \in Workers : wpc[w] = "done")))
 \* vacuity guards (expected to be VIOLATED)
 NeverGivesUpInSend == [][\A w \in Workers : ~SendGiveUp(w)]_vars
